@@ -12,6 +12,7 @@ import operator
 from mc import terms as T, ref
 from mc.enc import fresh
 from mc.run import Result
+from mc.snapshot import vsnap
 from mc.snapshot import snap
 
 from valida import conditions as C
@@ -293,7 +294,15 @@ def check_operands_intact(res, t, docs, case):
         a, b = T.build_cond(t[1]), T.build_cond(t[2])
     except BaseException:
         return True
-    before = (snap(a), snap(b))
+    # (what an operand *is* is judged through its public face: equality with a copy built afresh, its repr, its
+    # serialised form -- not through private attributes, which an implementation may use for lazy caches)
+    def face(x, t_):
+        try:
+            f = T.build_cond(t_)
+            return (x == f, f == x, repr(x) == repr(f), vsnap(x.to_json_like()) == vsnap(f.to_json_like()))
+        except BaseException as e:
+            return ("raises", type(e).__name__)
+    before = (face(a, t[1]), face(b, t[2]))
     obs = [[_res(x, d) for d in docs] for x in (a, b)]
     res.count("transitions", 2)
     try:
@@ -305,7 +314,7 @@ def check_operands_intact(res, t, docs, case):
         res.violation("operands:combine-raises:%s" % type(e).__name__, "combining the operands of %s (twice) raised %r" % (T.show(t), e),
                       case, observed=repr(e))
         return False
-    if (snap(a), snap(b)) != before:
+    if (face(a, t[1]), face(b, t[2])) != before:
         res.violation("operands:changed", "building %s changed one of its operands: %r / %r" % (T.show(t), a, b), case,
                       observed=(repr(a), repr(b)), expected=(T.show(t[1]), T.show(t[2])))
         return False
